@@ -245,11 +245,11 @@ def mutex_node(fb, f, top, mpath):
     return cur
 
 
-def lock_order(ctx, rid, scope_pred=None):
+def lock_order(ctx, rid, scope_pred=None, floor=10):
     """A6: acyclic lock-order graph; no function re-acquires (blocking) a
     mutex that is held at the call"""
     ctx.rule(rid, "lock-order graph over all blocking acquisitions is acyclic and no blocking acquisition "
-             "of a mutex happens while that mutex is already held (self-deadlock)", floor=10)
+             "of a mutex happens while that mutex is already held (self-deadlock)", floor=floor)
     fb, eng = ctx.fb, ctx.eng
     # acquires summaries: function id -> set of (mutex path in its own names, node)
     acq = {}
@@ -690,4 +690,56 @@ def rcu_writer_guard(ctx, rid, floor=20):
                        "" if ok else "write mutex not held here (check-then-lock: two erasers can both pass)",
                        fn=f.label, inst=f.qname)
                 n += 1
+    return n
+
+
+# ----------------------------------------------------------- atomic floors A7
+def atomic_floors(ctx, rid, owners, floor=1, files=None):
+    """every atomic operation on a field of the classes in `owners` meets the
+    floor of tables/atomics.json for its operation kind and lock context"""
+    import json
+    from .engine import atomic_ops, atomic_field_of, mo_at_least, MO_NAMES
+    tab = json.load(open(os.path.join(VERIF, "tables", "atomics.json")))
+    ctx.rule(rid, "every atomic access meets the minimum memory order its protocol needs (tables/atomics.json, "
+             "with the synchronises-with pair per row)", floor=floor)
+    fb, eng = ctx.fb, ctx.eng
+    n = 0
+    unclassified = set()
+    for f in fb.functions():
+        if files is not None and not in_files(f, files):
+            continue
+        ops = atomic_ops(f)
+        if not ops:
+            continue
+        la = locks_of(eng, fb, f)
+        for op in ops:
+            fld = atomic_field_of(f, op)
+            if fld is None or fld[0] not in owners:
+                continue
+            ent = tab["fields"].get(fld[0], {}).get(fld[1])
+            if ent is None:
+                unclassified.add("%s::%s" % fld)
+                continue
+            kind = op["op"]
+            if kind == "other" or kind not in ent:
+                continue
+            wm = tab["writer_mutex"].get(fld[0]) or tab["writer_mutex"].get("%s:%s" % fld)
+            pos = f.pos_of(op["st"])
+            c = "F"
+            if wm and pos is not None:
+                # the mutex may be reached through another object (list.m_write_mutex): compare by suffix
+                for m, mode, _k in la.held_at(pos):
+                    if m == wm or (m and m.split(".")[-1] == wm.split(".")[-1]):
+                        c = "W" if "L" not in ent.get(kind, {}) else "L"
+            want = ent[kind].get(c) or ent[kind].get("any") or ent[kind].get("F")
+            ok = mo_at_least(op["order"], want)
+            if kind == "cas" and ok and op.get("fail_order") is not None:
+                pass
+            ctx.ob(rid, ok, f.loc(op["st"]), "%s %s of %s::%s is at least %s" % (
+                {"W": "writer-side", "L": "locked", "F": "lock-free"}[c], kind, fld[0].split("::")[-1], fld[1], want),
+                "" if ok else "order is %s; needed because: %s" % (MO_NAMES.get(op["order"], "?"), ent.get("why", "")),
+                fn=f.label, inst=f.qname)
+            n += 1
+    for u in sorted(unclassified):
+        ctx.note("atomic field without a floor (listed, not judged): " + u)
     return n
